@@ -7,7 +7,7 @@
    the list of the visible graphs it has seen, in order. *)
 From Coq Require Import List NArith ZArith Arith Bool Lia Permutation.
 From Mamba Require Import Disjoint.Model Search.Model Search.SaveModel.
-From Mamba Require Import Search.ShardModel Search.ShardSim Search.Shard Search.Prune Search.ShardWf.
+From Mamba Require Import Search.ShardModel Search.ShardSim Search.ShardComplete Search.Shard Search.Prune Search.ShardWf.
 Import ListNotations.
 Local Open Scope nat_scope.
 
@@ -18,6 +18,43 @@ Variable ksub_reps : nat -> nat -> list (list nat) -> list N.
 Hypothesis canon_novb : canon_ignores_stale_bits canon.
 
 Notation outs pre post := (outputs grow canon ksub_reps pre post).
+
+(* The iterative machine and the recursive presentation agree: the caller's loop ends without
+   panic with the list L (for some number of calls and fuel) exactly when spec = Some L. *)
+Theorem outputs_iff_spec : forall preprune prune n a m L,
+  (exists calls fuel, outs preprune prune calls fuel (init n a m) = Ok L) <->
+  spec canon ksub_reps preprune prune n a m = Some L.
+Proof.
+  intros preprune prune n a m L. split.
+  - intros [calls [fuel H]]. eapply outputs_spec; eauto.
+  - apply spec_outputs. exact canon_novb.
+Qed.
+
+(* If the unsplit search ends without panic, so does every shard. *)
+Theorem shards_terminate : forall preprune prune n m L a,
+  1 <= m -> a < m ->
+  (exists calls fuel, outs preprune prune calls fuel (init n 0 1) = Ok L) ->
+  exists La calls fuel, outs preprune prune calls fuel (init n a m) = Ok La.
+Proof.
+  intros preprune prune n m L a M1 Ha H0. apply outputs_iff_spec in H0.
+  destruct (spec_part canon ksub_reps preprune prune n m M1 L H0) as [NP _].
+  specialize (NP a Ha).
+  destruct (spec canon ksub_reps preprune prune n a m) as [La|] eqn:E; [|contradiction].
+  exists La. apply outputs_iff_spec. exact E.
+Qed.
+
+(* If the unpruned search ends without panic, the pruned one ends without panic with the
+   filtered output. *)
+Theorem prune_terminates : forall P pre post n a m L,
+  grows_bad P ->
+  (pre = P \/ pre = no_prune) -> (post = P \/ post = no_prune) -> (pre = P \/ post = P) ->
+  (exists calls fuel, outs no_prune no_prune calls fuel (init n a m) = Ok L) ->
+  exists calls fuel, outs pre post calls fuel (init n a m) = Ok (filter (fun g => negb (P g)) L).
+Proof.
+  intros P pre post n a m L HP H1 H2 H3 R0. apply outputs_iff_spec in R0.
+  apply outputs_iff_spec.
+  exact (spec_prune canon ksub_reps P HP n a m pre post (conj H1 (conj H2 H3)) L R0).
+Qed.
 
 (* The shards together are the unsplit search, as multisets; for all pruning functions. *)
 Theorem shards_partition : forall preprune prune n m L (Ls : list (list vgraph)),
